@@ -9,6 +9,10 @@ def write (S : Nat) (q : Q) (xs : List UInt8) : Q × Int :=
   else if xs.length ≤ S - q.length then (q ++ xs, xs.length)
   else (q, 0)
 
+/-- `write` of `n` zero bytes (theorem `queue_writeZeros_eq_write` in PV.Props.C08), without building the list when it cannot fit -/
+def writeZeros (S : Nat) (q : Q) (n : Nat) : Q × Int :=
+  if n ≠ 0 ∧ ¬ n ≤ S - q.length then (q, 0) else write S q (List.replicate n 0)
+
 /-- read: the oldest `min len used` bytes; `-1` for a zero-length read -/
 def read (q : Q) (len : Nat) : Q × List UInt8 × Int :=
   if len = 0 then (q, [], -1)
